@@ -9,6 +9,18 @@ VERIF = os.path.dirname(os.path.dirname(os.path.abspath(__file__)))
 
 # one line per seed: what the change is (from the sub-agent's NOTES.md, shortened by hand)
 WHAT = {
+    "C01-exp1_tail_reuse": "Exp1 tail computed from the strip uniform (reaches Exp, Gamma(1), ChiSquared(2))",
+    "C01-lognormal_mean_cv": "LogNormal::from_mean_cv: mu = ln(mean) - sigma/2 instead of sigma^2/2",
+    "C01-skew_normal_reflect": "SkewNormal negative shapes via |shape| and a sign flip applied after the affine map",
+    "C10-leaf_cutoff": "try_sample leaf fast path that treats a node with a left child only as a leaf (even lengths)",
+    "C10-update_overflow_walk": "update drops the overflow pre-check and propagates the error from inside the walk",
+    "C10-single_fastpath": "try_sample returns Ok(0) for a one-element tree before the zero-total guard",
+    "C12-circle_retry_reuse": "UnitCircle redraws only one coordinate after a rejection",
+    "C12-sphere_rim_margin": "UnitSphere accepts only sum < 1 - sqrt(epsilon) (a polar cap is lost in f32)",
+    "C12-ball_inscribed_cube": "UnitBall early accept inside a cube of half-side 1/sqrt(2) (corners outside the ball)",
+    "C13-cauchy_pole_reflection": "Cauchy uses the reflection identity near the pole: -inf at u = 1/2",
+    "C13-frechet_redundant_parens": "Frechet: -x.ln().powf(e) parses as -((ln x)^e)",
+    "C13-weibull_upper_tail_series": "Weibull replaces -ln(x) near 1 by the series h - h^2/2 (wrong sign of the second term)",
     "C03-binv_cutoff": "BINV/BTPE cutoff moved so that BINV runs with large n·p",
     "C03-zeta_uniform": "Zeta draws u from [0,1) instead of (0,1]",
     "C03-btpe_checked_cast": "BTPE region 4 uses the asserting f64_to_u64 on an infinite proposal",
@@ -62,6 +74,10 @@ WHAT = {
     "C15-hypergeo_identity_omit": "skip_serializing_if + default on sign_x (identity 1 restored as 0)",
 }
 WHY_MISSED = {
+    "C01-exp1_tail_reuse": "Exp1 is a ziggurat primitive: its tail is C06's clause (reported there by the Exp1 tail rule); C01's references start above the primitives",
+    "C10-update_overflow_walk": "the defect is in `update` leaving a partial modification behind an Err: reported by C09's no-effect-on-error and pre-check rules; the descent itself (C10) is untouched",
+    "C13-cauchy_pole_reflection": "the reflection identity is exact over the reals, so the transform is still the quantile function (both paths are confirmed); the -inf at the single draw u = 1/2 is a singular point, reported by C03",
+    "C13-weibull_upper_tail_series": "a series approximation on a draw-dependent branch cannot be judged by an identity (a correct truncated series is not identical either): reported as not decided by C13; C03 reports the changed result range",
     "C03-binv_cutoff": "the change makes BINV run with a large n·p (a slow walk, not a wrong value): it is reported by C05's BINV restart rule; C03's clauses are not affected",
     "C03-invgauss_conjugate": "InverseGaussian's generic abstract result is already unconstrained (x > 0 needs relational algebra), so a NaN that appears only at one draw value is invisible — declared limit of the interval domain",
     "C05-hin_unbounded_walk": "termination of a float recurrence (p underflows before u is used up) is numerical; a shape rule for it fires on try_sample's legitimate descent loop (§11.5)",
